@@ -17,7 +17,20 @@ def main():
     rc_all = 0
     results = {}
     try:
-        subprocess.check_call(["git", "-C", wt, "apply", patch])
+        if subprocess.call(["git", "-C", wt, "apply", patch], stderr=subprocess.DEVNULL) != 0 and \
+                subprocess.call(["git", "-C", wt, "apply", "-3", patch], stdout=subprocess.DEVNULL,
+                                stderr=subprocess.DEVNULL) != 0:
+            # an older reverse patch whose lines were changed again by later repairs
+            print("== patch does not apply to the current tree")
+            sd = os.path.dirname(patch)
+            if os.path.dirname(sd) == V + "/seeded":
+                rp = sd + "/result.json"
+                old = json.load(open(rp)) if os.path.exists(rp) else {}
+                for pid in pids:
+                    old.setdefault(pid, {})
+                    old[pid]["stale_patch"] = True
+                json.dump(old, open(rp, "w"), indent=1, sort_keys=True)
+            return 0
         rc = subprocess.call(["rsync", "-a", "--exclude", ".lake/build/ir", V + "/lean/", lean + "/"])
         if rc not in (0, 24):
             raise RuntimeError("rsync failed %d" % rc)
